@@ -34,7 +34,8 @@ fn check_string(s: &str, problems: &mut Vec<Value>, counts: &mut [u64; 3]) {
 pub fn main(args: &[String]) {
     silence_panics();
     let db = arg_value(args, "--oracle").unwrap_or_else(|| tool_error("--oracle"));
-    let pairs = args.iter().any(|a| a == "--pairs");
+    let pairs_small = args.iter().any(|a| a == "--pairs-small");
+    let pairs = args.iter().any(|a| a == "--pairs") || pairs_small;
     let seed = arg_u64(args, "--seed", 1);
     let threads = arg_u64(args, "--threads", 12) as u32;
     let o = Arc::new(Oracle::load(&db));
@@ -80,13 +81,18 @@ pub fn main(args: &[String]) {
         }
         // valid cased letters x valid combining marks (seeded sample of the marks)
         let mut rng = Rng::new(seed);
-        let cased: Vec<u32> = (0..n).filter(|cp| o.lower16.contains_key(cp) && o.idp_of(*cp) == "PVALID").collect();
+        let cased: Vec<u32> = (0..n)
+            .filter(|cp| o.lower16.contains_key(cp) && o.idp_of(*cp) == "PVALID" && (!pairs_small || *cp < 0x250 || (0x391..0x3aa).contains(cp)))
+            .collect();
         let marks: Vec<u32> = (0..n)
             .filter(|cp| o.idp_of(*cp) == "PVALID" && char::from_u32(*cp).map(|c| canonical_combining_class(c) != 0).unwrap_or(false))
             .collect();
-        let mut some_marks: Vec<u32> = vec![0x300, 0x301, 0x307, 0x308, 0x30a, 0x323, 0x327, 0x345, 0x5b8, 0x64e, 0x94d, 0x3099];
-        for _ in 0..24 {
+        let mut some_marks: Vec<u32> = vec![0x300, 0x301, 0x307, 0x308, 0x30a, 0x30c, 0x323, 0x327, 0x331, 0x345, 0x5b8, 0x64e, 0x94d, 0x3099];
+        for _ in 0..(if pairs_small { 0 } else { 24 }) {
             some_marks.push(*rng.pick(&marks));
+        }
+        if pairs_small {
+            bases.truncate(0);
         }
         for (a, b) in bases.iter() {
             check_string(&vec_to_string(&[*a, *b]), &mut problems, &mut counts);
@@ -101,6 +107,9 @@ pub fn main(args: &[String]) {
         // compatibility characters of FreeformClass next to a space and a mark
         let compat_bit = 1u16 << o.sig_bits.iter().position(|b| b == "compat").unwrap();
         for cp in 0..n {
+            if pairs_small {
+                break;
+            }
             if o.sig[cp as usize] & compat_bit != 0 && o.idp_of(cp) == "ID_DIS" {
                 for other in [0x20u32, 0x301, 0x3099, 0x1161] {
                     check_string(&vec_to_string(&[cp, other]), &mut problems, &mut counts);
